@@ -1,7 +1,7 @@
 use std::env;
 use std::ffi::{CStr, CString, OsStr, OsString};
 use std::fs::File;
-use std::io::{Error, Result};
+use std::io::{Error, ErrorKind, Result};
 use std::iter;
 use std::marker::PhantomData;
 use std::mem;
@@ -263,14 +263,26 @@ pub fn _exit(status: u8) -> ! {
 
 pub const WNOHANG: i32 = libc::WNOHANG;
 
+/// Repeat a system call for as long as it is interrupted by a signal handler.
+pub fn retry_intr<T>(mut f: impl FnMut() -> Result<T>) -> Result<T> {
+    loop {
+        match f() {
+            Err(ref e) if e.kind() == ErrorKind::Interrupted => continue,
+            other => return other,
+        }
+    }
+}
+
 pub fn waitpid(pid: u32, flags: i32) -> Result<(u32, ExitStatus)> {
     let mut status = 0 as c_int;
-    let pid = check_err(unsafe {
-        libc::waitpid(
-            pid as libc::pid_t,
-            &mut status as *mut c_int,
-            flags as c_int,
-        )
+    let pid = retry_intr(|| {
+        check_err(unsafe {
+            libc::waitpid(
+                pid as libc::pid_t,
+                &mut status as *mut c_int,
+                flags as c_int,
+            )
+        })
     })?;
     Ok((pid as u32, decode_exit_status(status)))
 }
@@ -389,17 +401,22 @@ pub fn poll(fds: &mut [PollFd<'_>], mut timeout: Option<Duration>) -> Result<usi
             })
             .unwrap_or((-1, false));
         let fds_ptr = fds.as_ptr() as *mut libc::pollfd;
-        let cnt = unsafe { check_err(libc::poll(fds_ptr, fds.len() as libc::nfds_t, timeout_ms))? };
-        if cnt != 0 || !overflow {
-            return Ok(cnt as usize);
+        match unsafe { check_err(libc::poll(fds_ptr, fds.len() as libc::nfds_t, timeout_ms)) } {
+            Ok(cnt) if cnt != 0 || !overflow => return Ok(cnt as usize),
+            // the maximum timeout has elapsed, go on waiting
+            Ok(_) => (),
+            // so has a signal handler run: poll() is never restarted by itself
+            Err(ref e) if e.kind() == ErrorKind::Interrupted => (),
+            Err(e) => return Err(e),
         }
 
-        let deadline = deadline.unwrap();
-        let now = Instant::now();
-        if now >= deadline {
-            return Ok(0);
+        if let Some(deadline) = deadline {
+            let now = Instant::now();
+            if now >= deadline {
+                return Ok(0);
+            }
+            timeout = Some(deadline - now);
         }
-        timeout = Some(deadline - now);
     }
 }
 
